@@ -801,6 +801,13 @@ class Exec(Executor):
             self.assumed_contracts_used.add(k.key)
         env, _ = self.bind_params(fi, recv, args, kwargs, st, node)
         ctx = Ctx(self, env, "prove", st, st)
+        entry_clock = self.born_clock
+        ctx.entry_clock = entry_clock
+        # the callee may allocate any number of objects: they get stamps in [entry_clock, exit_clock) for a fresh symbolic exit clock
+        exit_clock = z3.Int(smt.fresh_name("clk"))
+        self.clock_facts.append(exit_clock >= entry_clock)
+        self.born_clock = exit_clock
+        ctx.exit_clock = exit_clock
         for cl in k.requires:
             self.oblige(st, f"call {fi.qualname.split(':')[-1]}/pre/{cl.label}", smt.lift(cl.fn(ctx)).z, node, kind="pre")
         td = self.result_td(k, fi)
@@ -844,13 +851,18 @@ class Exec(Executor):
                         post.assume(iv.td.info.len(iv.z) >= 0)
             else:
                 res.fresh = k.fresh_result
+        # whatever the call returns exists when it returns: allocated before the exit clock
+        for iv in (res.items if isinstance(res, PyTuple) else [res]):
+            if isinstance(iv, SV) and isinstance(iv.td, TRefT) and not k.pure and not k.attr:
+                post.assume(z3.Or(iv.z == smt.NONE, smt.born(iv.z) < exit_clock))
         if isinstance(res, SV):
             post.assume(*self.type_facts(res.z, td, post))
             if k.fresh_result and isinstance(td, TRefT):
-                post.assume(smt.born(res.z) == self.born_clock)
-                self.born_clock += 1
+                post.assume(smt.born(res.z) >= entry_clock, smt.born(res.z) < exit_clock)
                 post.owned[res.z.get_id()] = _AllFresh()
         actx = Ctx(self, env, "assume", post, st)
+        actx.entry_clock = entry_clock
+        actx.exit_clock = exit_clock
         actx.result = res
         out: list[Res] = []
         # exceptional outcomes
@@ -859,6 +871,8 @@ class Exec(Executor):
             if self.feasible(st, cz):
                 s2 = st.fork().assume(cz)
                 ectx = Ctx(self, env, "assume", s2, st)
+                ectx.entry_clock = entry_clock
+                ectx.exit_clock = exit_clock
                 ectx.exc = exc
                 for cl in k.exc_ensures:
                     s2.assume(smt.lift(cl.fn(ectx)).z)
